@@ -396,10 +396,13 @@ func emitSpends(g *core.Gen, cs []caseSpec) {
 				emit(g, "api:variant", nontrivial, fmt.Sprintf("C06 runv %d %s %s", (i/12)%nVariants, bases[i], oracles[i]))
 			}
 			if pk := c.sp.spent[c.sp.idx].PkScript; len(pk) == 34 && pk[0] == 0x51 && pk[1] == 0x20 && i%12 == 1 {
-				emit(g, "api:taproot-helpers", nontrivial, fmt.Sprintf("C06 runv %d %s %s", 10+(i/12)%2, bases[i], oracles[i]))
+				emit(g, "api:taproot-helpers", nontrivial, fmt.Sprintf("C06 runv %d %s %s", []int{10, 11, 4}[(i/12)%3], bases[i], oracles[i]))
 			}
 			if strings.HasPrefix(c.class, "gen:sig:") && i%12 == 2 {
 				emit(g, "api:sigcache-other-tx", nontrivial, fmt.Sprintf("C06 runv 9 %s %s", bases[i], oracles[i]))
+			}
+			if strings.HasPrefix(c.class, "gen:sig:") && c.sp.flags == txscript.StandardVerifyFlags && i%12 == 3 {
+				emit(g, "api:parallel-lows", nontrivial, fmt.Sprintf("C06 par %s %s", bases[i], oracles[i]))
 			}
 			if i%48 == 5 {
 				emit(g, "api:parallel", nontrivial, fmt.Sprintf("C06 par %s %s", bases[i], oracles[i]))
